@@ -675,15 +675,15 @@ theorem natDigits_head_zero_iff (b : Nat) (u : Bool) (hb : 2 ≤ b) (hb' : b ≤
   · rintro rfl; rw [natDigits_zero]; rfl
 
 theorem insertZ_eq (o : OStream) (z : Int) :
-    insertZ o z = ({ o with width := 0 } : OStream).write (cstr (fieldLayout o.fmt o.width o.fill (signStr o.fmt (decide (z < 0)))
-        (prefixStr o.fmt (decide (z = 0))) (natDigits o.fmt.outBase o.fmt.outUpper z.natAbs))) := by
+    insertZ o z = ({ o with width := 0 } : OStream).write (fieldLayout o.fmt o.width o.fill (signStr o.fmt (decide (z < 0)))
+        (prefixStr o.fmt (decide (z = 0))) (natDigits o.fmt.outBase o.fmt.outUpper z.natAbs)) := by
   have hb := intParams_base o
   have hr := outBase_range o.fmt
   have hmem : ∀ c ∈ natDigits o.fmt.outBase o.fmt.outUpper z.natAbs, c ≠ '/' ∧ c ≠ '-' := fun c hc =>
     digitTab_ne _ c (natDigits_mem _ _ hr.1 hr.2 _ c hc)
   have hz : (natDigits o.fmt.outBase o.fmt.outUpper z.natAbs).head? = some '0' ↔ decide (z = 0) = true := by
     rw [natDigits_head_zero_iff _ _ hr.1 hr.2]; simp
-  have e1 : insertZ o z = ({ o with width := 0 } : OStream).write (cstr (callsBytes (doprntInteger (intParams o) (mpzGetStr (intParams o).base z)))) := by
+  have e1 : insertZ o z = ({ o with width := 0 } : OStream).write (callsBytes (doprntInteger (intParams o) (mpzGetStr (intParams o).base z))) := by
     simp only [insertZ, doprntIntegerOstream, intParams, ← hb.2.2]
     rfl
   rw [e1]
@@ -759,10 +759,10 @@ theorem head?_append_ne_nil (a b : List Char) (h : a ≠ []) : (a ++ b).head? = 
   | cons x t => rfl
 
 theorem insertQ_eq (o : OStream) (n d : Int) (hd : 0 < d) :
-    insertQ o n d = ({ o with width := 0 } : OStream).write (cstr (fieldLayout o.fmt o.width o.fill (signStr o.fmt (decide (n < 0)))
+    insertQ o n d = ({ o with width := 0 } : OStream).write (fieldLayout o.fmt o.width o.fill (signStr o.fmt (decide (n < 0)))
         (prefixStr o.fmt (decide (n = 0)))
         (natDigits o.fmt.outBase o.fmt.outUpper n.natAbs ++
-          (if d = 1 then [] else '/' :: (prefixStr o.fmt false ++ natDigits o.fmt.outBase o.fmt.outUpper d.natAbs))))) := by
+          (if d = 1 then [] else '/' :: (prefixStr o.fmt false ++ natDigits o.fmt.outBase o.fmt.outUpper d.natAbs)))) := by
   by_cases h1 : d = 1
   · subst h1
     have : insertQ o n 1 = insertZ o n := by simp [insertQ, insertZ, mpqGetStr]
@@ -780,7 +780,7 @@ theorem insertQ_eq (o : OStream) (n d : Int) (hd : 0 < d) :
     rw [← hnd, natDigits_head_zero_iff _ _ hr.1 hr.2]; simp
   have hzd : dd.head? = some '0' ↔ false = true := by
     rw [← hdd, natDigits_head_zero_iff _ _ hr.1 hr.2]; simp; omega
-  have e1 : insertQ o n d = ({ o with width := 0 } : OStream).write (cstr (callsBytes (doprntInteger (intParams o) (mpqGetStr (intParams o).base n d)))) := by
+  have e1 : insertQ o n d = ({ o with width := 0 } : OStream).write (callsBytes (doprntInteger (intParams o) (mpqGetStr (intParams o).base n d))) := by
     simp only [insertQ, doprntIntegerOstream, intParams]
     rfl
   rw [e1]
@@ -856,7 +856,14 @@ theorem digit_ge_48 (b : Nat) (hb : b = 8 ∨ b = 10 ∨ b = 16) (c : Char) (h :
   · have := (digitTest10_iff c).mp h; omega
   · have := (digitTest16_iff c).mp h; omega
 
-theorem cstr_id (l : List Char) (_h : ∀ c ∈ l, 1 ≤ c.toNat) : cstr l = l := rfl
+theorem cstr_id (l : List Char) (h : ∀ c ∈ l, 1 ≤ c.toNat) : cstr l = l := by
+  unfold cstr
+  apply takeWhile_eq_self'
+  intro c hc
+  have := h c hc
+  simp only [ne_eq, decide_not, Bool.not_eq_eq_eq_not, Bool.not_true, decide_eq_false_iff_not, char_eq_iff]
+  have e : ('\x00' : Char).toNat = 0 := rfl
+  omega
 
 /-- the text of a number in a fixed base, read back by a stream set to that base -/
 theorem numSpec_fixed_roundtrip (fi : Fmt) (b : Nat) (hb : b = 8 ∨ b = 10 ∨ b = 16) (hfi : fi.base? = some b)
